@@ -382,7 +382,7 @@ def view_check(name, case, rec):
 def vhist_strategy(name, tier):
     peaks = st.lists(fl(1.1, 2.2), min_size=1, max_size=3)
     return st.fixed_dictionaries({"mu": fl(0.5, 2), "bulkratio": fl(2, 20), "r": fl(1.5, 4), "m": fl(0.3, 1.5), "beta": fl(0.0, 0.4), "peaks": peaks,
-                                  "num": st.integers(3, 6), "case": st.sampled_from(["ux", "ps", "bx"]), "incompressible": st.booleans()})
+                                  "num": st.integers(3, 6), "case": st.sampled_from(["ux", "ps", "bx", "all", "ps+bx"]), "incompressible": st.booleans()})
 
 
 def vhist_check(name, case, rec):
@@ -398,20 +398,34 @@ def vhist_check(name, case, rec):
         path += [pk, 1.0]
     lam = np.asarray(fem.math.linsteps(path, num=case["num"]), float)
     kw = {"ux": None, "ps": None, "bx": None}
-    kw[case["case"]] = lam
+    wanted = {"all": ["ux", "ps", "bx"], "ps+bx": ["ps", "bx"]}.get(case["case"], [case["case"]])
+    for w_ in wanted:
+        kw[w_] = lam  # several load cases in one view: each curve starts from the initial (virgin) state
     inc = case["incompressible"]
     if inc:
         base = fem.NeoHooke(mu=case["mu"])
         um = fem.OgdenRoxburgh(base, r=case["r"], m=case["m"], beta=case["beta"])
-        data = fem.ViewMaterialIncompressible(um, **kw).evaluate()
+        view = fem.ViewMaterialIncompressible(um, **kw)
         rec.label("incompressible-view")
     else:
-        data = fem.ViewMaterial(um, **kw).evaluate()
+        view = fem.ViewMaterial(um, **kw)
+    data = view.evaluate()
     rec.nontrivial = len(case["peaks"]) >= 2
-    if not rec.require("one-load-case", len(data) == 1, len(data)):
+    rec.label(f"load-cases={len(wanted)}")
+    if not rec.require("one-curve-per-load-case", len(data) == len(wanted), len(data)):
         return
-    got_l, got_P, label = data[0]
-    mode = {"ux": "uniaxial", "ps": "planar", "bx": "biaxial"}[case["case"]]
+    if len(wanted) > 1:
+        # a second evaluation of the same view starts from the initial state again
+        again = view.evaluate()
+        rec.require("second-evaluate-same-curves", len(again) == len(data) and all(np.allclose(a_[1], b_[1], rtol=1e-12, atol=0) for a_, b_ in zip(again, data)))
+    for which, (got_l, got_P, label) in zip(wanted, data):
+        vhist_compare(rec, case, base, lam, inc, which, got_l, got_P)
+
+
+def vhist_compare(rec, case, base, lam, inc, which, got_l, got_P):
+    from scipy.special import erf
+
+    mode = {"ux": "uniaxial", "ps": "planar", "bx": "biaxial"}[which]
     ref, wmax = [], 0.0
     for l in lam:
         if inc:
@@ -432,7 +446,7 @@ def vhist_check(name, case, rec):
 
 
 FAMILIES = [
-    Family("view-history", ["ogden-roxburgh"], vhist_check, strategy=vhist_strategy, n={"quick": 8, "thorough": 200}, chunk=4),
+    Family("view-history", ["ogden-roxburgh"], vhist_check, strategy=vhist_strategy, n={"quick": 16, "thorough": 300}, chunk=4),
     Family("patch", PATCH, patch_check, strategy=patch_strategy, n={"quick": 6, "thorough": 150}, chunk=6, weight=3),
     Family("loadcase", LOAD, load_check, strategy=load_strategy, n={"quick": 8, "thorough": 200}, chunk=4, weight=4),
     Family("view", VIEW, view_check, strategy=view_strategy, n={"quick": 10, "thorough": 150}, chunk=10),
